@@ -75,4 +75,47 @@ mod k {
         kani::cover!(raw[0] != raw[15], "asymmetric address");
         assert!(cm.pktinfo6.ipi6_addr.s6_addr == raw, "ipi6_addr == received ipi6_addr");
     }
+
+    // The code that actually runs on the send path is inline in the async fn send_msg (it does not call
+    // convert_to_cmsg): its statements from `let mut cmsgs` up to the sendmsg call are lifted verbatim by lib/lift.py.
+    include!(concat!(env!("VERIF_GEN_DIR"), "/send_msg_cmsgs.rs"));
+
+    /// VERIF: {"p":"C07","tier":"quick","fns":["socket::send_msg (control-message block lifted from source)","socket::RecvMsg::local_ip","socket::std_to_libc_in_addr"],"bounds":"all 2^32 IPv4 destination addresses of a received datagram","oracle":"sendmsg gets exactly one IP_PKTINFO whose ipi_spec_dst (the field Linux uses as the source of an outgoing datagram, ip(7)) is byte for byte the destination address reported for the query; ipi_addr and ipi_ifindex stay unspecified","stubs":["statements between `let mut cmsgs` and the sendmsg call lifted verbatim from send_msg; the await on writability and the syscall itself are not executed"],"covers":1,"unwind":4}
+    #[kani::proof]
+    #[kani::unwind(4)]
+    fn c07_send_msg_source_v4() {
+        let raw: u32 = kani::any();
+        let rm = RecvMsg {
+            buffer: Vec::new(),
+            address: None,
+            timestamp: None,
+            ipv4pktinfo: Some(libc::in_pktinfo { ipi_ifindex: 1, ipi_spec_dst: libc::in_addr { s_addr: 0 }, ipi_addr: libc::in_addr { s_addr: raw } }),
+            ipv6pktinfo: None,
+        };
+        let cm = ControlMessage::new().set_send_from(rm.local_ip());
+        let (p4, _p6, n, first_is_v4) = lifted_send_msg_cmsgs(&cm);
+        kani::cover!(raw.to_ne_bytes()[0] != raw.to_ne_bytes()[3], "asymmetric address");
+        assert!(n == 1 && first_is_v4, "exactly one IPv4 packet-info control message");
+        assert!(p4.ipi_spec_dst.s_addr == raw, "ipi_spec_dst == destination address of the query");
+        assert!(p4.ipi_addr.s_addr == 0 && p4.ipi_ifindex == 0, "ipi_addr / ipi_ifindex left unspecified");
+    }
+
+    /// VERIF: {"p":"C07","tier":"quick","fns":["socket::send_msg (control-message block lifted from source)","socket::RecvMsg::local_ip","socket::std_to_libc_in6_addr"],"bounds":"all 2^128 IPv6 destination addresses","oracle":"sendmsg gets exactly one IPV6_PKTINFO whose ipi6_addr is the destination address of the query; interface unspecified","stubs":["as c07_send_msg_source_v4"],"covers":1,"unwind":18}
+    #[kani::proof]
+    #[kani::unwind(18)]
+    fn c07_send_msg_source_v6() {
+        let raw: [u8; 16] = kani::any();
+        let rm = RecvMsg {
+            buffer: Vec::new(),
+            address: None,
+            timestamp: None,
+            ipv4pktinfo: None,
+            ipv6pktinfo: Some(libc::in6_pktinfo { ipi6_ifindex: 1, ipi6_addr: libc::in6_addr { s6_addr: raw } }),
+        };
+        let cm = ControlMessage::new().set_send_from(rm.local_ip());
+        let (_p4, p6, n, first_is_v4) = lifted_send_msg_cmsgs(&cm);
+        kani::cover!(raw[0] != raw[15], "asymmetric address");
+        assert!(n == 1 && !first_is_v4, "exactly one IPv6 packet-info control message");
+        assert!(p6.ipi6_addr.s6_addr == raw && p6.ipi6_ifindex == 0, "ipi6_addr == destination address of the query");
+    }
 }
